@@ -176,10 +176,17 @@ func runCase(f []string) string {
 		st := parseStack(f[2])
 		var p int
 		var err error
+		// the exported wrappers (nil Buffer when no stack is given), so that the wrapper code is
+		// part of what is compared with the model
+		var buf *rjson.Buffer
+		if st != nil {
+			buf = &rjson.Buffer{}
+			rjson.VerifSetBufferStack(buf, st)
+		}
 		if op == "skip" {
-			p, _, err = rjson.VerifSkipValue(data, st)
+			p, err = rjson.SkipValue(data, buf)
 		} else {
-			p, _, err = rjson.VerifSkipValueFast(data, st)
+			p, err = rjson.SkipValueFast(data, buf)
 		}
 		if err == nil && (p < 0 || p > len(data)) {
 			return fmt.Sprintf("ok-out-of-range %d", p)
